@@ -12,7 +12,9 @@
 
    `fx : bool` selects the code as repaired by /verif/fixes/c10-*.patch (true) or the code as found
    (false): (a) `raw[i] = x` / `raw.insert(i, x)` passed a negative `i` unnormalised to
-   _notify_splice, (b) `raw[a:b] = xs` with b < a passed r.stop < r.start. *)
+   _notify_splice, (b) `raw[a:b] = xs` with b < a passed r.stop < r.start, (c) `view[a:b:k] = xs`
+   read `_raw_indexes[slice_from_range(r)]`, which for the empty range(-1, -1, k) (k < 0, a < -len) is
+   the whole list reversed. *)
 From AB Require Import Prelude PySeq.
 
 (* an element of the raw list: its type tag (which Python class), and the parts of its content a
@@ -245,7 +247,9 @@ Definition v_setitem (s : st) (v : view) (index : pyidx) (values : list elem) : 
   match range_from_index index (zlen (v_idx v)) with
   | Err e => (s, Err e)
   | Ok r =>
-      match list_get_slice (v_idx v) (slice_from_range r) with
+      (* repaired: [self._raw_indexes[i] for i in r]; as found: self._raw_indexes[slice_from_range(r)] *)
+      match (if fx then Ok (pick (v_idx v) (range_list r))
+             else list_get_slice (v_idx v) (slice_from_range r)) with
       | Err e => (s, Err e)
       | Ok ps =>
           if negb (zlen ps =? zlen values) then (s, Err ValueError)
